@@ -316,6 +316,8 @@ type TxSpec struct {
 	CostModels map[uint][]int64 // the parameters' cost models (for the script data hash)
 	NoSDH      bool             // omit the script data hash although redeemers exist
 	Style      *Styler
+	// KeepOrder encodes inputs / collateral / reference inputs in the given order
+	KeepOrder bool
 	// WdrlScript: withdrawals from native-script reward accounts (script = sig of key)
 	WdrlScript []Wd
 	// WdrlRaw: withdrawals from accounts given by raw credential hashes
@@ -400,6 +402,13 @@ func inputNode(i In) *xcbor.Node {
 	return xcbor.A(xcbor.B(id[:]), xcbor.U(uint64(i.Ix)))
 }
 
+func (tx *TxSpec) sortIns(ins []In) []In {
+	if tx.KeepOrder {
+		return ins
+	}
+	return sortIns(ins)
+}
+
 func sortIns(ins []In) []In {
 	out := append([]In(nil), ins...)
 	sort.Slice(out, func(a, b int) bool {
@@ -423,7 +432,7 @@ func (tx *TxSpec) BodyNode() (*xcbor.Node, []byte) {
 	var kv []*xcbor.Node
 	add := func(k uint64, v *xcbor.Node) { kv = append(kv, xcbor.U(k), v) }
 	var ins []*xcbor.Node
-	for _, i := range sortIns(tx.Ins) {
+	for _, i := range tx.sortIns(tx.Ins) {
 		ins = append(ins, inputNode(i))
 	}
 	add(0, tx.setNode(ins))
@@ -479,7 +488,7 @@ func (tx *TxSpec) BodyNode() (*xcbor.Node, []byte) {
 		}
 		if len(tx.Coll) > 0 {
 			var cs []*xcbor.Node
-			for _, i := range sortIns(tx.Coll) {
+			for _, i := range tx.sortIns(tx.Coll) {
 				cs = append(cs, inputNode(i))
 			}
 			add(13, tx.setNode(cs))
@@ -513,7 +522,7 @@ func (tx *TxSpec) BodyNode() (*xcbor.Node, []byte) {
 		}
 		if len(tx.RefIns) > 0 {
 			var rs []*xcbor.Node
-			for _, i := range sortIns(tx.RefIns) {
+			for _, i := range tx.sortIns(tx.RefIns) {
 				rs = append(rs, inputNode(i))
 			}
 			add(18, tx.setNode(rs))
